@@ -6,6 +6,7 @@ import struct
 
 from vt import core
 from vt.core import B, L
+from vt.ref import pe as refpe
 from vt.ref import tlv
 
 MACH = (0x014C, 0x8664)
@@ -161,6 +162,31 @@ def run(ctx):
     ctx.sample({"pe_scenario": tab_[5]["scn"], "expect": {k: (v if not isinstance(v, list) or len(v) < 10 else f"<{len(v)} bytes>") for k, v in tab_[5]["expect"].items()}})
     ctx.traces += len(tab_)
 
+    # ---- images with many sections (the export directory in the last of 17 / 20 / 40) and an x86 image whose DOS stub area also holds
+    # the byte pattern of the x64 stub further on: the artifacts are those of the image
+    for nsec in (17, 20, 40):
+        for arch_ in ("x86", "x64"):
+            img_, _i = refpe.build_pe(arch=arch_, n_sections=nsec, export_section=nsec - 1, section_size=0x200, compile_stamp=0x5F112233, export_stamp=0x603E2D9D, e_lfanew=0x100)
+            o_ = core.outcome(pe.find_compile_stamps, io.BytesIO(b"\x90" * 5 + bytes(img_)))
+            ctx.evaluations += 1
+            if o_ != ("ok", (0x5F112233, 0x603E2D9D)):
+                viol("find_compile_stamps", "many_sections", {"sections": nsec, "arch": arch_, "got": str(o_)[:100]})
+            oc_ = core.outcome(lambda: str(beacon.BeaconConfig.from_bytes(b"\x90" * 5 + bytes(img_) + small_cfg).version))
+            if oc_[0] != "ok" or "4.3" not in oc_[1]:
+                viol("BeaconConfig.version", "many_sections", {"sections": nsec, "arch": arch_, "got": str(oc_)[:100]})
+        ctx.count_distinct(("many_sections", nsec))
+    x64_stub, x86_stub = bytes.fromhex("554889e54881"), bytes.fromhex("e8000000005b")
+    for magic in (b"MZRE", b"MZ", b"MZARUH"):
+        for gap in (1, 9, 30):
+            stubcode = x86_stub + b"\x90" * gap + x64_stub
+            if len(magic) + len(stubcode) > 0x3C:
+                continue
+            img_, _i = refpe.build_pe(arch="x86", magic_mz=magic, dos_stub_code=stubcode, e_lfanew=0x80)
+            o_ = core.outcome(pe.find_magic_mz, io.BytesIO(bytes(img_)))
+            ctx.evaluations += 1
+            if o_ != ("ok", magic):
+                viol("find_magic_mz", "both_stub_patterns", {"magic": L(magic), "gap": gap, "got": str(o_)[:100]})
+        ctx.count_distinct(("both_stubs", magic))
     # ---- the header scan as a state machine (PEScan.tla): every vector of probe outcomes for four offsets
     from vt import tlaval
 
